@@ -40,6 +40,19 @@ def gen_cases(rng, tier):
     big = [1001, 2000, 5000] if tier == "thorough" and rng.random() < 0.05 else []
     model = spec.gen_pair_model(rng, groute, target="LAMMPS", nr_choices=[3, 4, 5, 8, 11, 21, 50, 101, 200, 400] + big)
     cases.append({"route": route, "model": model, "style": rng.randrange(1 << 30)})
+  # energy exactly 0 at a grid row where the slope is not (root on the grid)
+  for i in range(6 if tier == "quick" else 60):
+    nr = rng.choice([5, 9, 21, 41])
+    cutoff = (nr - 1) * rng.choice([0.25, 0.125, 0.5])
+    dr = cutoff / (nr - 1)
+    k = rng.randint(1, nr - 2)
+    c = rng.choice([2.0, 4.0, 0.5, -8.0])
+    node = {"k": "form", "name": "polynomial", "p": [-c * k * dr, c]}
+    if i % 2:
+      node = {"k": "sum", "a": [node, {"k": "form", "name": "zero", "p": []}]}
+    route = ["api_class", "api_legacy", "potable", "cli"][i % 4]
+    model = {"type": "pair", "target": "LAMMPS", "tab": {"nr": nr, "cutoff": cutoff}, "forms": [], "tables": [], "pair": [["Ar", "Ar", node]]}
+    cases.append({"route": route, "model": model, "style": rng.randrange(1 << 30), "root_on_grid": k})
   return cases
 
 
@@ -63,6 +76,9 @@ def run_case(case, ctx):
   N = nr - 1
   dr = oracle.grid(cutoff, N)
   rows = oracle.sample_rows(N, rng, 24 if nr <= 400 else 40)
+  if case.get("root_on_grid"):
+    rows = sorted(set(rows + [case["root_on_grid"] - 1]))
+    ctx.cls("root_on_grid")
   try:
     for o in refs:
       for i in rows:
